@@ -50,6 +50,17 @@ def literals(t, positive=True):
     """Flatten a test term into a list of literals that all hold."""
     if t[0] == "call" and t[1] == ("global", "bool") and len(t[2]) == 1 and not t[3]:
         return literals(t[2][0], positive)   # bool(x) as a condition is x
+    if t[0] == "ifexp" and ("const", False) in (t[2], t[3]) or t[0] == "ifexp" and ("const", True) in (t[2], t[3]):
+        # a boolean chosen by a test: (A if c else False) is (c and A), (True if c else B) is (c or B), ...
+        c, a, b_ = t[1], t[2], t[3]
+        if b_ == ("const", False):
+            return literals(("and", (c, a)), positive)
+        if a == ("const", False):
+            return literals(("and", (("not", c), b_)), positive)
+        if a == ("const", True):
+            return literals(("or", (c, b_)), positive)
+        if b_ == ("const", True):
+            return literals(("or", (("not", c), a)), positive)
     if positive and t[0] == "not" and t[1][0] == "isnone":
         imp = _choice_not_none(t[1][1])
         if imp is not None:
